@@ -64,7 +64,11 @@ func (w *World) Count() int { w.mu.Lock(); defer w.mu.Unlock(); return len(w.ima
 func (w *World) Ops() int64 { w.mu.Lock(); defer w.mu.Unlock(); return w.ops }
 
 // Images returns the images taken.
-func (w *World) Images() []Image { w.mu.Lock(); defer w.mu.Unlock(); return append([]Image(nil), w.images...) }
+func (w *World) Images() []Image {
+	w.mu.Lock()
+	defer w.mu.Unlock()
+	return append([]Image(nil), w.images...)
+}
 
 // Do runs one mutating operation under the world lock and images the directory after it
 // (only when the directory content differs from the previous image).
